@@ -906,9 +906,7 @@ class VectorExpression:
 
     def __rsub__(self, other: float | int) -> VectorExpression:
         # other - self
-        return VectorExpression(
-            [BinaryOp(_ensure_expr(other), expr, "-") for expr in self._expressions]
-        )
+        return _reflected_vector_op(other, self._expressions, "-")
 
     def __mul__(self, other: float | int) -> VectorExpression:
         """Scalar multiplication."""
@@ -923,9 +921,7 @@ class VectorExpression:
 
     def __rtruediv__(self, other: float | int) -> VectorExpression:
         """Right scalar division."""
-        return VectorExpression(
-            [BinaryOp(_ensure_expr(other), expr, "/") for expr in self._expressions]
-        )
+        return _reflected_vector_op(other, self._expressions, "/")
 
     def __neg__(self) -> VectorExpression:
         """Negate all elements."""
@@ -1239,10 +1235,8 @@ class VectorVariable:
         return _vector_binary_op(self, other, "-")
 
     def __rsub__(self, other: float | int) -> VectorExpression:
-        """Right subtraction: scalar - vector."""
-        return VectorExpression(
-            [BinaryOp(_ensure_expr(other), v, "-") for v in self._variables]
-        )
+        """Right subtraction: scalar - vector (or array - vector, element-wise)."""
+        return _reflected_vector_op(other, self._variables, "-")
 
     def __mul__(self, other: float | int) -> VectorExpression:
         """Scalar multiplication: x * 2."""
@@ -1257,10 +1251,8 @@ class VectorVariable:
         return _vector_binary_op(self, other, "/")
 
     def __rtruediv__(self, other: float | int) -> VectorExpression:
-        """Right scalar division: 1 / x."""
-        return VectorExpression(
-            [BinaryOp(_ensure_expr(other), v, "/") for v in self._variables]
-        )
+        """Right scalar division: 1 / x (or array / x, element-wise)."""
+        return _reflected_vector_op(other, self._variables, "/")
 
     def __neg__(self) -> VectorExpression:
         """Negate all elements: -x."""
@@ -1529,6 +1521,34 @@ class VectorVariable:
                 got_ndim=array.ndim,
             )
         return cls(name, len(array), lb=lb, ub=ub, domain=domain)
+
+
+def _reflected_vector_op(
+    left: float | int | np.ndarray | list,
+    right_exprs: Sequence[Expression],
+    op: Literal["-", "/"],
+) -> VectorExpression:
+    """Element-wise `left op right` for a non-vector left operand (scalar, array or list)."""
+    if isinstance(left, (np.ndarray, list)):
+        arr = np.asarray(left)
+        if arr.ndim != 1:
+            raise WrongDimensionalityError(
+                context=f"vector {op}",
+                expected_ndim=1,
+                got_ndim=arr.ndim,
+            )
+        if len(arr) != len(right_exprs):
+            raise DimensionMismatchError(
+                operation=f"vector {op}",
+                left_shape=len(arr),
+                right_shape=len(right_exprs),
+            )
+        left_exprs: list[Expression] = [Constant(val) for val in arr]
+    else:
+        left_exprs = [_ensure_expr(left)] * len(right_exprs)
+    return VectorExpression(
+        [BinaryOp(le, re, op) for le, re in zip(left_exprs, right_exprs)]
+    )
 
 
 def _vector_constraint(
